@@ -191,6 +191,10 @@ impl ObjUpvalue {
     }
 
     pub(crate) fn get(&self) -> Value {
+        #[cfg(yarel_verif)]
+        if let ObjUpvalueState::Open(a) = self.data {
+            crate::verif::check_open_upvalue(a as usize);
+        }
         match self.data {
             ObjUpvalueState::Open(a) => unsafe { *a },
             ObjUpvalueState::Closed(v) => v,
@@ -198,6 +202,10 @@ impl ObjUpvalue {
     }
 
     pub(crate) fn set(&mut self, value: Value) {
+        #[cfg(yarel_verif)]
+        if let ObjUpvalueState::Open(a) = self.data {
+            crate::verif::check_open_upvalue(a as usize);
+        }
         match self.data {
             ObjUpvalueState::Open(a) => unsafe { *a = value },
             ObjUpvalueState::Closed(ref mut v) => *v = value,
@@ -1161,6 +1169,12 @@ impl GcManaged for ObjFiber {
             caller.blacken();
         }
         self.return_value.blacken();
+    }
+
+    #[cfg(yarel_verif)]
+    fn verif_dead_range(&self) -> Option<(usize, usize)> {
+        let lo = self.stack.as_ptr() as usize;
+        Some((lo, lo + STACK_MAX * std::mem::size_of::<Value>()))
     }
 }
 
